@@ -118,7 +118,12 @@ func c02(r *report.Run) {
 		}
 		return runs, outs
 	}
-	slices := []*slice{sliceOptim(), sliceConstExpr()}
+	slices := []*slice{sliceOptim(), sliceConstExpr(), func() *slice {
+		s := sliceKinds()
+		s.modes = []lib.Mode{{Env: "struct"}, {Env: "noenv"}}
+		s.maxN = map[string]int{"quick": 5, "thorough": 6}
+		return s
+	}()}
 	runSlices(r, slices, func(sl *slice, e *gen.Expr, order int64) (int64, []string) {
 		if sl.name == "constexpr" {
 			return report2(sl, e, order, constExprFns, "constexpr:")
@@ -148,6 +153,24 @@ func c02(r *report.Run) {
 			}
 		}
 	}
+	// membership tests on '#' over collections whose element type the checker can only guess (dynamic elements)
+	for _, c := range []string{"map([0.75, 1], {# * 2})", "map([X, 1], {# + 1})", "map(AA, {1})", "[X, 1]", "map(A, {X})", "filter([1.5, 2], {true})", "map(FA, {# * 2})", "map(A, {# * F})"} {
+		for _, rg := range []string{"1..4", "0..2", "[1, 2, 3]"} {
+			raw = append(raw, "filter("+c+", {# in "+rg+"})", "count("+c+", {# not in "+rg+"})", "all("+c+", {# in "+rg+"})", "map("+c+", {# + 1 in "+rg+"})")
+		}
+	}
+	// slices of literal arrays (folded into typed constants when optimized) with every pair of bounds, descending ones included
+	for _, arr := range []string{"[1, 2, 3, 4]", `["a", "b", "c"]`, `[1, "b", 3.5]`, "[1]", `"abcd"`, "1..4", "A"} {
+		for _, f := range []string{"", "0", "1", "3", "7", "-1", "I"} {
+			for _, t := range []string{"", "0", "1", "2", "7", "-1", "I"} {
+				raw = append(raw, fmt.Sprintf("(%s)[%s:%s]", arr, f, t))
+			}
+		}
+	}
+	// patterns built by constant concatenation: invalid ones, reached or skipped at run time
+	for _, pat := range []string{`"(" + "ab"`, `"[" + "a"`, `"a" + "b"`, `"*" + "a"`, `"a" + "(" + "b"`, `"(" + S`} {
+		raw = append(raw, "S matches "+pat, "B and S matches "+pat, "not B and S matches "+pat, "B ? S matches "+pat+" : false", "I > 5 or S matches "+pat, "any(SA, {# matches "+pat+"})")
+	}
 	var rawRuns int64
 	for i, src := range raw {
 		for _, m := range []string{"struct", "noenv"} {
@@ -170,6 +193,7 @@ func c02(r *report.Run) {
 				env.F32 = []float32{16777216, 0.1, 3e7}[vi]
 				env.I64, env.U8, env.I8 = int64(iv), uint8(200), int8(100)
 				env.X = []interface{}{"a b", 1, "1 2"}[vi]
+				env.B = vi == 1
 				a, ea := lib.Run(pN, *env)
 				b, eb := lib.Run(pO, *env)
 				rawRuns += 2
